@@ -251,6 +251,11 @@ fn wrap(mut p: P, it: &J) -> P {
             .boxed(),
         other => panic!("unknown arity {}", other),
     };
+    // a validation applied after the default was filled in, refusing the default value itself
+    if b(it, "gdflt") {
+        let dv = fallback_val(it);
+        p = p.guard(move |v| *v != dv, guard_msg(id)).boxed();
+    }
     let gh = s(it, "group_help");
     if !gh.is_empty() && s(it, "arity") != "fallback_group" {
         p = p.group_help(leak(&dstr(gh))).boxed();
